@@ -2,11 +2,13 @@
 
 Proof: Lean theorems over ALL label lists of the labelled transition system in
 `lean/Kopf/Model/C20_Lifecycle.lean` (root tasks of `spawn_tasks`, phases of `run_tasks` and of
-`startup_cleanup_activities`, the orchestrator's ensemble tasks, workers, daemons; time passes only through
-`delay`, which is disabled while an instantaneous step is pending).
+`startup_cleanup_activities`, the core task, the orchestrator's ensemble tasks, workers, daemons and their exit
+stoppers). Time passes only through `delay`, which is ALWAYS enabled; a run is COOPERATIVE when each of its delays
+satisfies `coopDelay` (nothing instantaneous pending, no deadline overrun) — the theorems about time say so.
+Tie (T): the facts that select the model variant (`fixed`, `coreWatched`) are re-extracted from the AST.
 Tie (A, trace acceptance): the REAL `kopf.operator()` runs seeded lifecycle histories on the virtual-time
 loop against the fake API (`sim_c20.py`); every atomic segment of the choreography is logged in one global
-order log and the Lean driver (`C20.trace`) must accept the label trace, including its timing.
+order log and the Lean driver (`C20.trace`) must accept the label trace as a COOPERATIVE run (labels and timing).
 Oracle: written from the property statement over the order log / request log / return of `operator()`;
 never consults the model.
 """
@@ -26,28 +28,41 @@ from ..core import ROOT, Ctx, ExtractError, load_corpus
 ID = "C20"
 LEVEL = "proof"
 ENGINES = ["lean-model", "pyextract", "kopfsim"]
-TIE = ("T: the facts that select the model variant (the orchestrator's done-callback on its ensemble tasks cancels it and the "
-       "failure is re-raised; APINotFoundError is passed over; terminate_redundancies restarts exited tasks; scan_resources gathers "
-       "and cancels its requests) are re-extracted from the AST on every run and proved equal to the model's claims (Kopf/Tie/C20.lean); "
+TIE = ("T: the facts that select the model variant — the orchestrator's done-callback on its ensemble tasks cancels it and the "
+       "failure is re-raised (`fixed`); APINotFoundError is passed over; terminate_redundancies restarts exited tasks; scan_resources "
+       "gathers and cancels its requests; NO root task awaits the core tasks and their errors are re-raised before the cleanup "
+       "activity (`coreWatched := false`, finding C20-F6) — are re-extracted from the AST of orchestration.py / running.py / "
+       "scanning.py on every run and proved equal to the model's claims (Kopf/Tie/C20.lean); "
        "A: whole-operator simulations of the real kopf.operator(); one global order log of the atomic segments of "
-       "spawn_tasks/run_tasks/startup_cleanup_activities/orchestrator/watcher/worker/daemons with virtual times, replayed "
-       "by the Lean LTS (labels AND the time that may pass between them)")
+       "spawn_tasks/run_tasks/startup_cleanup_activities/orchestrator/watcher/worker/daemon_killer/daemons with virtual times, "
+       "replayed by the Lean LTS as a COOPERATIVE run (labels AND the time that may pass between them); the exception in flight at "
+       "the beginning of a watcher's `finally:`, the outcome of every withdrawal PATCH and the cooperativity of every daemon are "
+       "observed, not inferred from how things end")
 LEVEL_TEXT = (
-    "Lean theorems for every label list (no bound) of an LTS of the root-task choreography: no_api_before_startup, "
-    "failed_startup_no_api, ready_after_startup, root_failure_stops_all (+ root_failure_no_lingering: time cannot pass while a "
-    "root task has ended and run_tasks still waits), cleanup_last, reraise, daemons_stopped, peering_withdrawn, "
-    "worker_failure_reaches_watcher, stream_failure_stops_all (THE claim for the stream/worker-failure clause, for the model of the "
-    "current tree `fixed := true`: a failed ensemble task cancels the orchestrator at once, which can only end failed = a root "
-    "failure), gone_is_not_a_failure (HTTP 404 of a watcher whose resource was deleted does not stop anything; exited tasks are "
-    "spawned anew), stream_failure_stops_all_partial / worker_failure_stops_all_partial (the root observers' own streams and "
-    "workers), exit_bound (exit <= t0 + E + W + D + C + H: exit_timeout, peering withdrawal, daemon exit stoppers, cleanup "
-    "activity, 5 s hung-task grace — under 'tasks honour cancellation' and 'the cleanup activity takes at most C'; kopf sets no "
-    "limit for cleanup handlers, so that part is an assumption: partial w.r.t. non-cooperative threads). "
-    "historical_stream_failure_lingers_witness is about the OLD code (variant `fixed := false`, finding F3 before /repo 9ef1bcb) "
-    "and only shows that the hypothesis `fixed` is needed. The hand-written model is tied to the code by (T) an AST extraction of "
-    "the variant-selecting facts re-proved equal on every run and (A) trace acceptance (labels and timing) of seeded "
-    "whole-operator histories. Defects met by this check and repaired in /repo since: F3 (9ef1bcb), C20-F2 (ca0106f), C20-F4 "
-    "(06bf1c1); their witnesses stay in the corpus and their oracle clauses stay strict.")
+    "Lean theorems for every label list (no bound) of an LTS of the root-task choreography. Time: `delay` is always enabled; "
+    "cooperativity (`coopDelay`: tasks honour cancellation at once, the timed waits E, W, D, C, H are kept) is an explicit "
+    "predicate on the run (`ReachC`). Safety over all runs: no_api_before_startup, failed_startup_no_api, ready_after_startup, "
+    "cleanup_last (roots, core, ensemble, workers and the cooperative daemons with an exit stopper are over before the cleanup "
+    "activity), reraise, no_daemon_alive_at_return, peering_withdrawal_attempted (+ withdrawal_may_fail_witness: kopf ignores a "
+    "failed withdrawal PATCH). PROGRESS: returns (after a trigger every cooperatively reachable state reaches `exited` by "
+    "internal steps alone: well-founded measure `mu`) and no_timelock (whenever cooperative time cannot pass an internal "
+    "non-delay step is enabled) — so the `rt = exited -> ...` theorems and the bounds mean 'the run call returns'. Fail-fast: "
+    "root_failure_stops_all; stream_failure_stops_all / worker_failure_stops_all (THE claims for the current tree `fixed := true`: "
+    "a failed ensemble task — or a watcher failed by its worker, which cannot be overtaken by HTTP 404 — cancels the orchestrator "
+    "at once, which can only end failed = a root failure), gone_is_not_a_failure. Bounds, for cooperative runs only: "
+    "exit_bound_partial (exit <= t0 + E + W + D + C + H from the moment run_tasks begins to stop) and "
+    "failure_to_stop_bound_partial (ghost tFail = the first escalated failure: run_tasks begins to stop within 2(E+W+D), the "
+    "operator is gone within 3(E+W+D) + C + H — the oracle's bound); noncooperative_exit_unbounded_witness shows that nothing "
+    "bounds a non-cooperative run (aiotasks.stop has no timeout). NOT met by the code, with witnesses replayed on real kopf: "
+    "core_failure_lingers_witness + core_failure_skips_cleanup_witness (open finding C20-F6: nobody awaits the credentials "
+    "retriever; proved repaired in the variant `coreWatched`: core_failure_stops_all), "
+    "worker_failure_reaches_watcher_partial + worker_failure_during_depletion_dropped_witness (open finding C20-F5: a worker "
+    "failing while its watcher depletes is only logged). historical_stream_failure_lingers_witness is about the OLD code "
+    "(variant `fixed := false`, finding F3 before /repo 9ef1bcb) and only shows that the hypothesis `fixed` is needed. The "
+    "hand-written model is tied to the code by (T) an AST extraction of the variant-selecting facts re-proved equal on every run "
+    "and (A) trace acceptance (labels and timing) of seeded whole-operator histories. Defects met by this check and repaired in "
+    "/repo since: F3 (9ef1bcb), C20-F2 (ca0106f), C20-F4 (06bf1c1); their witnesses stay in the corpus and their oracle clauses "
+    "stay strict.")
 THEOREMS = [("Kopf.Props.C20", "Kopf.C20." + n) for n in [
     "no_api_before_startup", "failed_startup_no_api", "ready_after_startup", "root_failure_stops_all",
     "returns", "no_timelock", "cleanup_last", "reraise", "no_daemon_alive_at_return", "peering_withdrawal_attempted",
@@ -65,22 +80,40 @@ RULE = ("seeded lifecycle histories: 0-2 startup handlers (ok / sleeping / tempo
         "(sleep), 0-3 objects, peering on/off, and ONE trigger placed at every phase (during startup, exactly at its end, during "
         "discovery, while watchers start, steady state, with handlers in flight): stop flag, cancellation of operator(), fatal "
         "ERROR on the resource / peering / CRD watch, a worker exception (poisoned event, failing memo copy), 500s on discovery "
-        "(initial scan, re-scan from a CRD event) and on the peering keep-alive, startup and cleanup handler failures, deletion and "
-        "re-creation of the served CRD (HTTP 404 in the watcher: not a failure; watched again). A case is "
-        "distinct by (trigger kind, phase, startup/cleanup outcome shapes, daemon modes, in-flight, peering); non-trivial when a "
-        "trigger fires.")
+        "(initial scan, re-scan from a CRD event) and on the peering keep-alive (also fails the withdrawal), startup and cleanup "
+        "handler failures, deletion and re-creation of the served CRD (HTTP 404 in the watcher: not a failure; watched again), "
+        "login_fail (HTTP 401 invalidates the credentials, the re-login fails for good: the core task dies; without peering), "
+        "worker_fail_depletion (a poisoned event queued behind a handler in flight, then a stop: the worker fails while its "
+        "watcher depletes). A case is distinct by (trigger kind, phase, startup/cleanup outcome shapes, daemon modes, in-flight, "
+        "peering); non-trivial when a trigger fires.")
 TRUSTED = ["harness/sim (virtual-time loop, fake API server, scripted handlers) and harness/props/sim_c20.py (attribute-level "
            "instrumentation: each log entry is written inside the atomic segment it names)",
-           "CPython asyncio task/cancellation semantics — exercised, not modelled"]
-ASSUMPTIONS = ["operator() must return within  2*E + W + D + C + H + 1 s  after the first trigger (E = settings.queueing.exit_timeout: once for the "
-               "depletion inside a failing watcher before its failure escalates, once at shutdown; W = sum(error_backoffs) + retries of the "
-               "withdrawal PATCH, peering only; D = max(cancellation_backoff + cancellation_timeout) over daemons; C = scripted duration of "
-               "the cleanup handlers; H = 5 s hard-coded hung-task grace of run_tasks; 1 s slack for request latencies)",
-               "one stop trigger per run (a second cancellation of operator() while it is stopping abandons the tasks by design)",
-               "tasks honour cancellation (a daemon swallowing more cancellations than stop_daemon + run_tasks send hangs the exit: "
-               "aiotasks.stop has no timeout)",
+           "CPython asyncio task/cancellation semantics — exercised, not modelled",
+           "two label arguments are still chosen by the abstraction from how the task ENDS (prophecy): `fail` of the daemon killer's "
+           "and of the keep-alive task's `finally:`; the orchestrator's is forced by the model (`fail = orchErr`), the watchers' is "
+           "observed (exception in flight)"]
+ASSUMPTIONS = ["oracle bound = the bound of the Lean theorems + 1 s slack for request latencies: operator() must return within "
+               "G + C + H + 1 s after a stop request (flag, cancellation) and within 3*G + C + H + 1 s after the first failure, "
+               "G = E + W + D (E = settings.queueing.exit_timeout; W = sum(error_backoffs) + retries of the withdrawal PATCH, peering "
+               "only; D = max(cancellation_backoff + cancellation_timeout) over daemons; C = scripted duration of the cleanup "
+               "handlers; H = 5 s hard-coded hung-task grace of run_tasks). The three G are sequential in the code: the failing "
+               "watcher's own depletion, the orchestrator stopping the other streams, the root observers at shutdown",
+               "the bounds (exit_bound_partial, failure_to_stop_bound_partial) are proved and checked for COOPERATIVE runs only: tasks "
+               "honour cancellation (a daemon swallowing more cancellations than stop_daemon + run_tasks send hangs the exit: "
+               "aiotasks.stop has no timeout — noncooperative_exit_unbounded_witness); every generated history is cooperative",
+               "one stop trigger per run (a cancellation of operator() after the stopping has begun, and a second cancellation, "
+               "abandon the tasks by design; `rtCancel` exists only while run_tasks waits)",
                "the cleanup activity is bounded by the scripted duration C (kopf sets no timeout for cleanup handlers)",
-               "sync handlers run inline (no real threads)"]
+               "the orchestrator's OWN failure (an exception out of its adjusting loop; it handles only CancelledError) is not "
+               "modelled: it is the one root failure after which the ensemble would outlive the cleanup (cleanup_last's third conjunct)",
+               "'the peering record is withdrawn' is proved and checked as 'the withdrawal was attempted by every keep-alive task': "
+               "kopf logs and ignores a failed withdrawal PATCH (withdrawal_may_fail_witness; histories with faults on the peering "
+               "PATCH are exempt from the oracle's 'record gone' clause)",
+               "'daemons are stopped': cooperative daemons that got an exit stopper are over before the cleanup (cleanup_last, "
+               "oracle); the others are 'hung tasks', cancelled after the cleanup, none alive at return",
+               "login_fail histories run without peering: with peering the dead vault also blocks the withdrawal PATCH, such an "
+               "operator cannot even be stopped gracefully (seen: still running 64 s after the stop flag) — part of C20-F6",
+               "sync handlers run inline (no real threads); liveness endpoint and _command root tasks are not started"]
 
 F3_SIG = {"site": "orchestration.orchestrator", "shape": "ensemble task ended with an exception while the operator keeps running"}
 
